@@ -113,10 +113,22 @@ func runRelay(r *core.Run) {
 	var fw []fwd
 	var stream2 []byte
 	var ends2 []int
+	// a relay loop may decode into one value per type again and again instead of allocating
+	reuse := c.Prob(1, 3)
+	recv := map[string]protocol.PDU{}
+	if reuse {
+		r.Probe("relay_reuses_receivers")
+	}
 	for i, f := range frames {
 		it := items[i]
 		site := it.pd.Site()
 		pdu := ctor[site]()
+		if reuse {
+			if recv[site] == nil {
+				recv[site] = pdu
+			}
+			pdu = recv[site]
+		}
 		var err error
 		if p := r.Call(site+".IDecode", func() { err = pdu.IDecode(f) }); p != nil {
 			r.Fail("C11", "panic", p.Frame, p.Kind, "relay IDecode of a %s image: %s", it.kind, p.Value)
